@@ -160,6 +160,7 @@ static void runHistory(const Job& j) {
 			stable++;
 			if (stable == snapAt && !resumed) {
 				std::string ser;
+				for (auto& f : j.flags) if (f.compare(0, 9, "snapwait:") == 0) usleep(atoi(f.c_str() + 9) * 1000);   // snapshot while delayed events are just becoming due
 				try { ser = a.ip.serialize(); } catch (Event e) { *out << "SERTHROW " << oneline(e.name) << "\n"; break; }
 				*out << "SER " << oneline(ser) << "\n";
 				if (j.flag("lateresume")) { lateSer = ser; resumed = true; evB = ev; continue; }   // resume only when the original is through: pending timers restart at deserialize()
